@@ -668,7 +668,7 @@ func worker(args []string) int {
 			}
 		}
 	}
-	memLimit := uint64(envInt("VERIF_WORKER_MEM_MB", 1500)) << 20
+	memLimit := uint64(envInt("VERIF_WORKER_MEM_MB", 900)) << 20
 	doneParts := make([]bool, len(parts))
 	sigs := map[uint64]struct{}{}
 	states := map[uint64]struct{}{}
